@@ -60,4 +60,6 @@ def main(tier):
     chk.run("R-LOOPACC", FLW.loopacc, cx.repo, floor=10, modules=("compiler/back_end/cpp/header_generator.py",))
     chk.run("R-VIRTOK", B.virtok, cx.repo, floor=2)
     chk.run("R-ARRAYOK", WN.arrayok, cx.cpp, floor=2)
+    chk.run("R-CHOICECONST", R.choiceconst, cx.repo, floor=2)
+    chk.run("R-MAXARGS", CC.maxargs, cx.repo, floor=60)
     return chk.finish()
